@@ -1,5 +1,6 @@
 """C06 — transaction and block serialisation round trip, ids."""
 import json, os, re, pickle
+from io import BytesIO
 from harness.core import hexp, REPO, run_driver
 from harness import txgen
 
@@ -222,6 +223,31 @@ def run_blocks(ctx, chk):
                 b1.version_int, b1.prev_block.hex(), b1.merkle_root.hex(), b1.time, b1.bits_int, b1.nonce_int,
                 b1.block_hash.hex(), b1.target, b1.tx_count, ','.join(txids1))
             second = 'same-ids' if txids1 == txids2 else 'second-reader-differs:' + ','.join(txids2)[:2000]
+            # the incremental readers and the other entry points: one transaction at a time; a limited first pass completed later
+            if second == 'same-ids' and len(raw) < 400000:
+                b3 = Block.parse_bytes(raw)
+                txids3 = []
+                while True:
+                    t3 = b3.parse_transaction()
+                    if not t3:
+                        break
+                    txids3.append(t3.txid)
+                lim = rng.randrange(1, max(2, len(txids1)))
+                b4 = Block.parse(raw, parse_transactions=True, limit=lim)
+                n4 = len(b4.transactions)
+                b4.parse_transactions()
+                txids4 = [t.txid for t in b4.transactions]
+                b5 = Block.parse_bytesio(BytesIO(raw), parse_transactions=True)
+                txids5 = [t.txid for t in b5.transactions]
+                ctx.count('block:incremental-readers')
+                if txids3 != txids1:
+                    second = 'parse_transaction-reader-differs:' + ','.join(txids3)[:2000]
+                elif txids4 != txids1 or n4 != min(lim, len(txids1)):
+                    second = 'limited-then-completed-reader-differs(limit=%d,first=%d):' % (lim, n4) + ','.join(txids4)[:2000]
+                elif txids5 != txids1 or b5.block_hash != b1.block_hash:
+                    second = 'parse_bytesio-reader-differs:' + ','.join(txids5)[:2000]
+                elif b4.serialize() != raw:
+                    second = 'limited-then-completed-block-reserialises-differently'
             txs_py = b1.transactions
         except Exception as e:
             py, second, reser = 'raise:%s:%s' % (type(e).__name__, str(e)[:80]), '', ''
